@@ -48,7 +48,7 @@ func genOTSpec(t *rapid.T, cluster bool) *OTSpec {
 	nf := rapid.IntRange(0, 3).Draw(t, "nfields")
 	for i := 0; i < nf; i++ {
 		key := rapid.SampledFrom([]string{"k0", "k1", "nsname"}).Draw(t, "fkey")
-		kind := rapid.SampledFrom([]string{"raw", "quote", "guard", "guard", "b64", "upper", "lit", "env"}).Draw(t, "fkind")
+		kind := rapid.SampledFrom([]string{"raw", "quote", "guard", "guard", "b64", "upper", "lit", "env", "opt", "opt"}).Draw(t, "fkind")
 		f := OTField{DataKey: rapid.SampledFrom([]string{"a", "b", "c"}).Draw(t, "datakey") + string(rune('0'+i))}
 		switch kind {
 		case "lit":
@@ -56,7 +56,7 @@ func genOTSpec(t *rapid.T, cluster bool) *OTSpec {
 		case "env":
 			f.Expr = "env"
 		default:
-			if !keysAvail[key] && kind != "guard" && rapid.IntRange(0, 3).Draw(t, "allowmissing") > 0 {
+			if !keysAvail[key] && kind != "guard" && kind != "opt" && rapid.IntRange(0, 3).Draw(t, "allowmissing") > 0 {
 				kind = "guard"
 			}
 			f.Expr = kind + ":" + key
